@@ -20,6 +20,15 @@ import struct
 from lib import vfmt
 
 PROPERTY = 'C13'
+SOURCE_IMPORTS = ['ScalesModel.Model.MuxCodec']
+SOURCE_CONSTANTS = {
+    'Scales.MuxCodec.tDispatch': ('from scales.thriftmux.protocol import MessageType as M', 'M.Tdispatch'),
+    'Scales.MuxCodec.tDiscarded': ('from scales.thriftmux.protocol import MessageType as M', 'M.Tdiscarded'),
+    'Scales.MuxCodec.tPing': ('from scales.thriftmux.protocol import MessageType as M', 'M.Tping'),
+    'Scales.MuxCodec.rDispatch': ('from scales.thriftmux.protocol import MessageType as M', 'M.Rdispatch'),
+    'Scales.MuxCodec.rErr': ('from scales.thriftmux.protocol import MessageType as M', 'M.Rerr'),
+    'Scales.MuxCodec.badRerr': ('from scales.thriftmux.protocol import MessageType as M', 'M.BAD_Rerr'),
+}
 COMPONENT = 'muxcodec'
 QUICK = dict(gen=2400)
 THOROUGH = dict(gen=40000)
